@@ -240,6 +240,10 @@ def main(tier):
     if not c.phase_builds((profile,)):
         c.finish(rule="build failed")
     vh, drv = vlib.VH[profile], vlib.DRIVER
+    # the inline dispatcher: the model of parse_inline (Model/Inlines.v) reads the generated special-character
+    # table; its tie to the compiled parser makes "a byte outside the table is literal text" a fact about the code
+    from checks import layerc
+    layerc.inlines(c, tier, 0.25 if tier == "quick" else 0.1, profile=profile)
 
     # ------------------------------------------------------------------ the specification's features and triggers
     feats = [unhx(x).decode() for x in vlib.run_one(drv, "c13_features").split()[1:]]
